@@ -55,6 +55,7 @@
        `dtk = etk = ftk` on success the ticket cell keeps its value.
 -/
 import LibfiberVerif.Core.Sys
+import LibfiberVerif.Model.Spin
 
 namespace LibfiberVerif.SpinTso
 
@@ -270,5 +271,71 @@ def step (s : St) : Ev → Option St
 
 /-- The system started with `ticket = users = v0`, data cell 0, all buffers empty. -/
 def sys (fifoBuf : Bool) (v0 : Nat) : Sys St Ev := { init := init fifoBuf v0, step := step }
+
+/-! ### log replay (tie to the code)
+
+  The harness `harness/spin.c` runs the real `src/fiber_spinlock.c` under the deterministic
+  scheduler, which interleaves sequentially consistently: every plain store is in memory at
+  once.  Such a log is replayed through THIS machine with the embedding "a plain store is
+  followed immediately by its own drain" (`stTicket ↦ stTicket, flush`; `csWrite ↦ csWrite,
+  flush`); with `VH_DATA=1` the harness registers its critical-section counter as cell `data`,
+  whose plain loads and stores become `csRead` / `csWrite`.  Line decoding is `Spin.ofRaw`
+  (memory orders included), so the two models are driven by the same access sequence of the
+  same object code.  Counters are unbounded here: the part that uses this driver starts the
+  lock word far below 2^32. -/
+
+/-- one log line: an event of the SC model, or a plain access to the protected cell -/
+inductive LEv
+  | spin (e : Spin.Ev)
+  | rd (t : Nat) (v : Int)
+  | wr (t : Nat) (v : Int)
+
+def ofSpin : Spin.Ev → List Ev
+  | .callLock t => [.callLock t]
+  | .retLock t => [.retLock t]
+  | .callTry t => [.callTry t]
+  | .retTry t r => [.retTry t r]
+  | .callUnlock t => [.callUnlock t]
+  | .retUnlock t => [.retUnlock t]
+  | .csEnter t => [.csEnter t]
+  | .csExit t => [.csExit t]
+  | .faddUsers t old => [.faddUsers t old]
+  | .ldTicket t x => [.ldTicket t x]
+  | .stTicket t x => [.stTicket t x, .flush t]
+  | .ldBlob t tk us => [.ldBlob t tk us]
+  | .casBlob t a b c d e f ok => [.casBlob t a b c d e f ok]
+
+def runList (s : St) : List Ev → Option St
+  | [] => some s
+  | e :: es => (step s e).bind (fun s' => runList s' es)
+
+def stepL (s : St) : LEv → Option St
+  | .spin e => runList s (ofSpin e)
+  | .rd t v => step s (.csRead t v)
+  | .wr t v => runList s [.csWrite t v, .flush t]
+
+def ofRawL (r : RawEv) : Option LEv :=
+  match r.kind, r.args with
+  | "r", ["data", v] => v.toInt?.map (LEv.rd r.tid)
+  | "w", ["data", v] => v.toInt?.map (LEv.wr r.tid)
+  | _, _ => (Spin.ofRaw r).map LEv.spin
+
+def sysL (v0 : Nat) : Sys St LEv := { init := init true v0, step := stepL }
+
+/-- `verifdrv SpinTso <log>` -/
+def drive (lines : List String) : IO UInt32 := do
+  match initArgs lines with
+  | ["spin", n] =>
+    match n.toNat? with
+    | some v0 =>
+      -- the harness's own final look at the counter (function `main`, after every thread has
+      -- finished; it decides status LOSTUPDATE) is not an access under the lock
+      let body := lines.filter (fun l => !isInit l && !(match parseLine l with
+        | some r => r.func = "main" && r.args.head? = some "data"
+        | none => false))
+      let v := validate (sysL v0) ofRawL body
+      report "SpinTso" v (Spin.monitor body)
+    | none => IO.println "VALIDATE DIVERGE bad init"; return 1
+  | _ => IO.println "VALIDATE DIVERGE missing init"; return 1
 
 end LibfiberVerif.SpinTso
